@@ -181,6 +181,44 @@ SEL_KEYS = ["res1", "res2", "chain1", "chain2", "rid1", "rid2", "ins", "opt", "b
 SEL_RANGE = dict(same=2, res1=4, res2=4, chain1=4, chain2=4, rid1=len(RESIDS), rid2=len(RESIDS), ins=4, opt=16, bond=9, link=2, box=3, models=2)
 
 
+def check_interleaved(mid, link, models):
+    """three residues where the two that are bonded (C of A/1 - N of A/2, a peptide link by chemistry) are not neighbours
+    in the atom order: another residue stands between them. The reader re-creates peptide bonds only between neighbouring
+    residues, so this bond has to be written out - and comes back."""
+    import biotite.structure as struc
+    import biotite.structure.io.pdbx as pdbx
+    ccd_fixture.activate()
+    n = 9
+    arr = struc.AtomArray(n)
+    # (the residue in between belongs to another chain: between neighbouring residues of ONE chain the reader adds a
+    #  backbone bond by rule, whatever their numbering, so such a structure without that bond is not expressible)
+    mid_chain, mid_res = [("B", 1), ("C", 7), ("B", 2)][mid]
+    arr.chain_id = np.array(["A"] * 3 + [mid_chain] * 3 + ["A"] * 3)
+    arr.res_id = np.array([1] * 3 + [mid_res] * 3 + [2] * 3)
+    arr.res_name = np.array(["ALA"] * 3 + ["GLY"] * 3 + ["ALA"] * 3)
+    arr.atom_name = np.array(["N", "CA", "C"] * 3)
+    arr.element = np.array(["N", "C", "C"] * 3)
+    arr.coord = np.array([[1.5 * i, 0.5 * i, -1.0 * i] for i in range(n)], dtype=np.float32)
+    bonds = [(0, 1, 1), (1, 2, 1), (3, 4, 1), (4, 5, 1), (6, 7, 1), (7, 8, 1)]
+    bonds.append([(2, 6, 1), (2, 6, 2), (2, 7, 1)][link])          # C(A/1) - N(A/2) single / double, C(A/1) - CA(A/2)
+    arr.bonds = struc.BondList(n, np.array(bonds))
+    atoms = arr if models == 1 else struc.stack([arr, arr])
+    for form in ("cif", "bcif", "bcif-compressed"):
+        f = pdbx.CIFFile() if form == "cif" else pdbx.BinaryCIFFile()
+        pdbx.set_structure(f, atoms, include_bonds=True)
+        if form == "bcif-compressed":
+            f = pdbx.compress(f)
+        buf = io.StringIO() if form == "cif" else io.BytesIO()
+        f.write(buf)
+        buf.seek(0)
+        g = (pdbx.CIFFile if form == "cif" else pdbx.BinaryCIFFile).read(buf)
+        back = pdbx.get_structure(g, model=None if models == 2 else 1, include_bonds=True)
+        why = compare(atoms, back, 0, True)
+        if why:
+            return f"{form}: residues A/1, {mid_chain}/{mid_res}, A/2 with bond {bonds[-1]}: {why}"
+    return None
+
+
 def ob_roundtrip(tier):
     """each case varies 3-4 selector dimensions symbolically and fixes the others"""
     cases = []
@@ -209,6 +247,10 @@ def ob_roundtrip(tier):
         wit = dict(DEFAULT)
         wit.update(vs)
         cases.append(Case("roundtrip vary " + "+".join(grp), base, run, dict(sel=wit, varied=list(grp)), _replay_roundtrip))
+    md, lk, mo = z3.Ints("md lk mo")
+    cases.append(Case("bonded residues that are not neighbours in the atom order", [md >= 0, md < 3, lk >= 0, lk < 3, mo >= 1, mo <= 2],
+                      lambda: check_interleaved(cur().choose(md, range(3)), cur().choose(lk, range(3)), cur().choose(mo, (1, 2))) is None,
+                      dict(mid=md, link=lk, models=mo), _rep(check_interleaved, "mid", "link", "models")))
     return cases
 
 
